@@ -312,6 +312,9 @@ func structType(fs []sfield) reflect.Type {
 func isGeomKind(k string) bool { return k[0] == 'g' }
 
 var tmpDir string
+
+// the bytes of the three files are part of the answer when together they are at most this long
+const maxFileBytes = 24 << 10
 var caseNo int
 
 func runCase(c fcase) string {
@@ -417,12 +420,28 @@ func runCase(c fcase) string {
 	// the bytes of the three files as go-shp left them (compared with the byte-layout model by the judge)
 	var fileToks strings.Builder
 	fileToks.WriteString(" FILES")
-	for _, e := range []string{".shp", ".shx", ".dbf"} {
-		data, rerr := os.ReadFile(base + e)
-		if rerr != nil {
-			fileToks.WriteString(" missing")
+	{
+		var datas [][]byte
+		total := 0
+		for _, e := range []string{".shp", ".shx", ".dbf"} {
+			data, rerr := os.ReadFile(base + e)
+			if rerr != nil {
+				data = nil
+			}
+			datas = append(datas, data)
+			total += len(data)
+		}
+		if total > maxFileBytes {
+			// keeps the answers of the thorough tier (files of up to 300 records) at a size the judge can handle
+			fmt.Fprintf(&fileToks, " skipped %d", total)
 		} else {
-			fileToks.WriteString(" x" + hex.EncodeToString(data))
+			for _, data := range datas {
+				if data == nil {
+					fileToks.WriteString(" missing")
+				} else {
+					fileToks.WriteString(" x" + hex.EncodeToString(data))
+				}
+			}
 		}
 	}
 
